@@ -659,6 +659,13 @@ func runSync(R *res.Result, c Case) Case {
 	return c
 }
 
+func showPeer(p *Peer) string {
+	if p == nil {
+		return "none"
+	}
+	return fmt.Sprintf("peer %d on store %d", p.ID, p.Store)
+}
+
 func eqPeerPtr(a, b *Peer) bool {
 	if a == nil || b == nil {
 		return a == b
@@ -722,8 +729,8 @@ func checkSent(R *res.Result, c *Case) {
 				if suffix != "" {
 					sig = "C16:" + phase + ":leaders-misaligned-after-first-batch"
 				}
-				R.Violate(sig, fmt.Sprintf("%d regions on the leader, batch %d position %d: region %d has leader %+v on the leader but %+v on the follower",
-					len(c.Regions)+len(c.Pending), b, i, mr.ID, l.Leader, f.Leader), slim(*c))
+				R.Violate(sig, fmt.Sprintf("%d regions on the leader, batch %d position %d: region %d has leader %s on the leader but %s on the follower",
+					len(c.Regions)+len(c.Pending), b, i, mr.ID, showPeer(l.Leader), showPeer(f.Leader)), slim(*c))
 			case l.BW != f.BW || l.BR != f.BR || l.KW != f.KW || l.KR != f.KR:
 				R.Violate("C16:"+phase+":stats-differ"+suffix, fmt.Sprintf("%d regions on the leader, batch %d position %d: region %d flow statistics %v on the leader, %v on the follower",
 					len(c.Regions)+len(c.Pending), b, i, mr.ID, [4]uint64{l.BW, l.BR, l.KW, l.KR}, [4]uint64{f.BW, f.BR, f.KW, f.KR}), slim(*c))
